@@ -224,6 +224,32 @@ Section BatchModel.
         else repeat None M :: gt_parse M all parsed (S i) n'
     end.
 
+  (* The walk in closed form.  `gt_pointer all i` = the value of `parsed` when the loop reaches sample i:
+     the number of entries of the flat list that belong to EARLIER samples, every one of them counted
+     (the TRUE per-sample counts: a sample with more matches than the M instance rows still moves the
+     pointer past ALL its matches, although only M of them are emitted).  `gt_turn M all i` = what loop
+     turn i appends. *)
+  Definition gt_pointer (all : list (nat * ginst)) (i : nat) : nat :=
+    length (filter (fun p => fst p <? i) all).
+
+  Definition gt_turn (M : nat) (all : list (nat * ginst)) (i : nat) : list (option ginst) :=
+    if existsb (fun p => fst p =? i) all
+    then pad_to M (map snd (firstn (gt_count all i) (skipn (gt_pointer all i) all)))
+    else repeat None M.
+
+  (* NOT the code — a walk whose pointer advances by the count CLAMPED to M (`c = min(counts[i], M)`),
+     kept only to show that the theorems about `gt_parse` tell the two apart (Props.v,
+     c12_clamped_pointer_reads_batch_mates). *)
+  Fixpoint gt_parse_clamped (M : nat) (all : list (nat * ginst)) (parsed i n : nat) : list (list (option ginst)) :=
+    match n with
+    | O => []
+    | S n' =>
+        if existsb (fun p => fst p =? i) all
+        then let c := Nat.min (gt_count all i) M in
+             pad_to M (map snd (firstn c (skipn parsed all))) :: gt_parse_clamped M all (parsed + c) (S i) n'
+        else repeat None M :: gt_parse_clamped M all parsed (S i) n'
+    end.
+
   (* one batch through TopDownInferenceModel(CentroidCrop(return_crops=False),
      FindInstancePeaksGroundTruth): ONE output dictionary whose b-th entries are
      (frame_idx, video_idx, centroid row, matched-instance rows) *)
@@ -251,10 +277,17 @@ End BatchModel.
 Definition hpeak := (nat * Q)%type.
 Definition hframe := list hpeak.
 
+Definition mpeak := (nat * Q * option nat)%type.
+
 Inductive case :=
 | CStream (maxinst : option nat) (batch_size : nat) (fs : list (nat * nat * hframe))   (* (frame_idx, video_idx, peaks) *)
 | CRows (maxinst : option nat) (fs : list hframe)
-| CGt (maxinst : option nat) (M batch_size : nat) (fs : list (nat * nat * hframe)).   (* centroid-only: peak id = id of the labelled instance it matches *)
+| CGt (maxinst : option nat) (M batch_size : nat) (fs : list (nat * nat * hframe))   (* centroid-only: peak id = id of the labelled instance it matches *)
+| CGtM (maxinst : option nat) (M batch_size : nat) (fs : list (nat * nat * list mpeak)).
+  (* centroid-only, peaks (id, value, match): match = index of the labelled instance of the SAME frame the
+     centroid is nearest to (several centroids may share one; a centroid that is detected but not labelled
+     has the index of some labelled neighbour), None = the frame has no labelled instance.  A frame may hold
+     MORE peaks than the M instance rows. *)
 
 Inductive result :=
 | RStream (out : list (nat * nat * list nat))
@@ -262,6 +295,9 @@ Inductive result :=
 | RGt (out : list (nat * nat * list (option nat) * list (option nat))).
 
 Definition mk_src (f : nat * nat * hframe) : src hframe :=
+  {| s_img := snd f; s_fidx := fst (fst f); s_vidx := snd (fst f) |}.
+
+Definition mk_msrc (f : nat * nat * list mpeak) : src (list mpeak) :=
   {| s_img := snd f; s_fidx := fst (fst f); s_vidx := snd (fst f) |}.
 
 Definition run (c : case) : result :=
@@ -278,6 +314,11 @@ Definition run (c : case) : result :=
       RGt (map (fun r : nat * nat * list (option hpeak) * list (option nat) =>
                   (fst (fst (fst r)), snd (fst (fst r)), map (option_map fst) (snd (fst r)), snd r))
                (centroid_only_stream hframe hpeak (fun x => x) snd nat (fun _ p => Some (fst p)) mi M bs (map mk_src fs)))
+  | CGtM mi M bs fs =>
+      RGt (map (fun r : nat * nat * list (option mpeak) * list (option nat) =>
+                  (fst (fst (fst r)), snd (fst (fst r)), map (option_map (fun p : mpeak => fst (fst p))) (snd (fst r)), snd r))
+               (centroid_only_stream (list mpeak) mpeak (fun x => x) (fun p => snd (fst p)) nat (fun _ p => snd p)
+                                     mi M bs (map mk_msrc fs)))
   end.
 
 From SV Require Import Base.Render.
